@@ -39,6 +39,11 @@ func (t *smallHuffCodeTable) GenerateForHeader(codes []huffCode, count []uint16,
 
 	codeListLen := countTotal[16]
 	if codeListLen == 0 {
+		// no code at all: every lookup must be invalid, not whatever the
+		// previous block left in the table
+		for i := range shortCodeLookup {
+			shortCodeLookup[i] = 0
+		}
 		return
 	}
 	var codeList [distLen + 2]uint32 /* The +2 is for the extra codes in the static header */
@@ -58,7 +63,10 @@ func (t *smallHuffCodeTable) GenerateForHeader(codes []huffCode, count []uint16,
 	}
 	copySize := (1 << (lastLength - 1))
 
-	// /* Initialize shortCodeLookup, so invalid lookups process data */
+	/* Initialize shortCodeLookup, so invalid lookups process data */
+	for i := range shortCodeLookup[:copySize] {
+		shortCodeLookup[i] = 0
+	}
 	for ; lastLength <= distLookupBits; lastLength++ {
 		copy(shortCodeLookup[copySize:], shortCodeLookup[:copySize])
 		copySize *= 2
